@@ -145,4 +145,18 @@ TEXTS = {
         "level_text": 'Proved for an arbitrary comparison: sorting is a permutation (nothing lost or duplicated); with a total preorder it is idempotent and leaves sorted lists alone; if different siblings never tie the result is independent of the previous order; the index-path key is a total order. `sort` requests are answered by the Lean model of ElementRaw::sort / Ord for Element and compared with the library.',
         "level_note": "Trusted: Lean kernel; axioms propext, Classical.choice, Quot.sound. " + 'Assumes Element ordering is a total preorder (it was cyclic before the repair of finding #6).',
     },
+    "C15": {
+        "design_ref": "DESIGN.md §8 C15, §7 (hook H2)",
+        "technique": "Lean 4 theorems about a model of reader/writer locks, lock programs and their interleavings; deterministic schedule exploration of "
+                     "operation pairs on the real library through a lock shim (hook H2), real-thread confirmation",
+        "level_text": 'Proved for any number of threads and programs of any length: if every program takes its blocking locks in increasing order of a fixed order on locks and releases what it takes, no reachable state is a deadlock (invariant + progress); the exhaustive interleaving search used for concrete programs is part of the model. The crate does not follow the discipline: 37 operation pairs deadlock under the scheduler (five lock-cycle families), 35 of them also on real threads; they are known findings replayed on every run. Partial by nature (OS scheduling outside the model).',
+        "level_note": "Trusted: Lean kernel; axioms propext, Classical.choice, Quot.sound; hook H2 and the scheduler in it. " + "The theorem's hypothesis does not hold of the recorded programs of the real code; what is decided per run is the oracle (no new deadlocking pair).",
+    },
+    "C16": {
+        "design_ref": "DESIGN.md §8 C16, §7 (hook H2)",
+        "technique": "Lean 4 theorems about a model of reader/writer locks, lock programs and their interleavings; deterministic schedule exploration of "
+                     "operation pairs on the real library through a lock shim (hook H2), real-thread confirmation",
+        "level_text": 'Proved: granting a write lock means nobody holds the lock (basis of atomic critical sections); negation witness of the full statement for two loads into an empty model in an abstract check-then-act model (both files registered, one content lost, neither serial order). Serializability of the real operation pairs is explored on the real library under the deterministic scheduler and compared with both serial orders: partial.',
+        "level_note": "Trusted: Lean kernel; axioms propext, Classical.choice, Quot.sound; hook H2 and the scheduler in it. " + '38 non-serializable pairs are known findings replayed on every run.',
+    },
 }
